@@ -223,3 +223,80 @@ let run () =
      done
    with End_of_file -> ());
   Printf.printf "SUMMARY ops=%d diverged=%d growths=%d arrays=%d failures=%d\n" !ops !bad !growths !arrays !fails
+
+(* ---------- Exec lock-step: memory_pool<node_pool> (intrusive list, configurations without the double-free check) against
+   PoolExec: every address, every upstream request and every range handed to the list must be the model's ---------- *)
+let run_exec (dbl : bool) =
+  let st = ref None in
+  let steps = ref 0 and bad = ref 0 and lineno = ref 0 and grows = ref 0 in
+  let diverge msg line = incr bad; if !bad <= 12 then Printf.printf "DIVERGE line %d: %s :: %s\n" !lineno msg (if String.length line > 220 then String.sub line 0 220 else line) in
+  let show_evs evs = String.concat " " (List.map (function
+      | EUp (a, s) -> Printf.sprintf "U+(%d,%d)" (iz a) (iz s) | EUpFail -> "U+fail"
+      | EIns (n, m, s) -> Printf.sprintf "I(%d,%d,%d)" (iz n) (iz m) (iz s) | EResv (m, s) -> Printf.sprintf "R(%d,%d)" (iz m) (iz s)) evs) in
+  let answer_of events = List.fold_left (fun acc e -> match e with EUp (a, _) -> Some a | _ -> acc) None events in
+  let check_caps (s : upool) caps line =
+    match (try Some (List.assoc "cap" caps) with Not_found -> None) with
+    | Some c -> let m = List.length s.up_g.ug_l.u_nodes * iz s.up_g.ug_l.u_ns in if m <> c then diverge (Printf.sprintf "capacity_left: model %d" m) line
+    | None -> () in
+  (try
+     while true do
+       let line = input_line stdin in
+       incr lineno;
+       match String.split_on_char '|' line with
+       | [head; evs; caps] ->
+         let (lhs, rhs) = match String.index_opt head '=' with
+           | Some i -> (split_ws (String.sub head 0 i), split_ws (String.sub head (i + 1) (String.length head - i - 1)))
+           | None -> (split_ws head, []) in
+         let (events, _, _) = parse_events evs in
+         let caps = kv caps in
+         let finish (s', r, mev) =
+           incr steps;
+           if mev <> events then diverge (Printf.sprintf "model events [%s]" (show_evs mev)) line;
+           (match r, rhs with
+            | ObsOk x, "ok" :: p :: _ -> if iz x <> int_of_string p then diverge (Printf.sprintf "model address %d" (iz x)) line
+            | ObsNull, "null" :: _ | ObsThrow, "throw" :: _ | ObsTrue, "true" :: _ -> ()
+            | ObsOk x, _ -> diverge (Printf.sprintf "model serves the request at %d" (iz x)) line
+            | ObsNull, _ -> diverge "model refuses (null)" line
+            | ObsThrow, _ -> diverge "model throws" line
+            | _, _ -> diverge "unexpected model outcome" line);
+           List.iter (function EUp _ -> incr grows | _ -> ()) mev;
+           st := Some s'; check_caps s' caps line in
+         (match lhs, rhs with
+          | "pool" :: "node" :: ns :: bs :: src :: _, "ok" :: _ when not dbl ->
+            let nsi = max 8 (int_of_string ns) in
+            let k = if src = "grow" then AGrow else AFixed in
+            let ((s, _), mev) = up_construct k (zi nsi) (zi (int_of_string bs)) (answer_of events) in
+            incr steps;
+            if mev <> events then diverge (Printf.sprintf "constructor: model events [%s]" (show_evs mev)) line;
+            st := Some s; check_caps s caps line
+          | ("pool" | "coll") :: _, _ -> st := None
+          | ("ma" | "mfa") :: _, _ -> st := None          (* the pool object is replaced: the lock-step ends here *)
+          | (("an" | "tn" | "aa" | "ta") as o) :: args, res :: _ ->
+            (match !st with
+             | None -> ()
+             | Some s ->
+               let (count, size) = (match args with
+                   | [c; sz; _] -> (int_of_string c, int_of_string sz)
+                   | [sz; _] -> (1, int_of_string sz) | _ -> (1, 1)) in
+               (* a request refused for its parameters (no events, throw or null) leaves the pool alone *)
+               let refused_early = events = [] && (res = "throw" || (res = "null" && s.up_g.ug_l.u_nodes <> [] && o = "tn")) in
+               if refused_early then check_caps s caps line
+               else (match o with
+                   | "an" -> finish (let ((a, b), c) = up_alloc_node s (answer_of events) in (a, b, c))
+                   | "tn" -> finish (let ((a, b), c) = up_try_alloc_node s in (a, b, c))
+                   | "aa" -> finish (let ((a, b), c) = up_alloc_array s (zi (count * size)) (answer_of events) in (a, b, c))
+                   | _ -> finish (let ((a, b), c) = up_try_alloc_array s (zi (count * size)) in (a, b, c))))
+          | ("dn" | "da" | "tdn" | "tda") :: _, "true" :: p :: kind :: c :: sz :: _ ->
+            (match !st with
+             | None -> ()
+             | Some s ->
+               let p = zi (int_of_string p) and bytes = int_of_string c * int_of_string sz in
+               let r = if kind = "node" then up_dealloc_node s p else up_dealloc_array s p (zi bytes) in
+               (match r with
+                | Some ((a, b), c) -> finish (a, b, c)
+                | None -> diverge "model: the released memory is not out (or not with that size)" line; st := None))
+          | _ -> ())
+       | _ -> ()
+     done
+   with End_of_file -> ());
+  Printf.printf "SUMMARY exec_steps=%d diverged=%d exec_growths=%d\n" !steps !bad !grows
